@@ -145,6 +145,12 @@ type Exec struct {
 	lemmaStart     int
 	lastResult     Value
 	modelExtra     string
+	retInfos       []retInfo
+}
+
+type retInfo struct {
+	pc  Term
+	pos token.Pos
 }
 
 type ExecOpts struct {
@@ -220,6 +226,17 @@ func (x *Exec) oblName(kind, text string) string {
 }
 
 func (x *Exec) check(st *State, kind string, tags []string, pos token.Pos, text string, goal Term) *Obligation {
+	// a quantified conjunction is checked conjunct by conjunct (smaller queries, finer reports)
+	if hasQuant(goal) && strings.HasPrefix(goal.S, "(and ") {
+		parts := flattenAnd(goal)
+		if len(parts) > 1 {
+			var last *Obligation
+			for _, p := range parts {
+				last = x.check(st, kind, tags, pos, text, p)
+			}
+			return last
+		}
+	}
 	if goal.S == "true" {
 		// still count it: trivially discharged obligations are recorded as such
 		o := &Obligation{Name: x.oblName(kind, text), Kind: kind, Tags: tags, Func: x.key, Text: text, PC: st.pc, Goal: goal, NDecls: len(x.decls), NAssert: len(x.asserts)}
@@ -733,14 +750,14 @@ func (x *Exec) strLit(s string) VStr {
 	x.lits[s] = t
 	x.litOrder = append(x.litOrder, s)
 	x.assume(Eq(x.slen(t), IntLit(int64(len(s)))))
-	if len(s) <= 64 {
+	if len(s) <= 256 {
 		for i := 0; i < len(s); i++ {
 			x.assume(Eq(x.sat(t, IntLit(int64(i))), IntLit(int64(s[i]))))
 		}
 	}
 	// distinct from every earlier literal with the same length (others differ by length)
 	for _, o := range x.litOrder[:len(x.litOrder)-1] {
-		if len(o) == len(s) && (len(s) > 64) {
+		if len(o) == len(s) && (len(s) > 256) {
 			x.assume(Not(Eq(t, x.lits[o])))
 		}
 	}
@@ -803,11 +820,7 @@ func (x *Exec) makeIface(st *State, v Value, t types.Type) VIface {
 	if len(ls) == 1 && ls[0].Sort == SInt {
 		return VIface{tag, ts[0]}
 	}
-	box := x.fresh("box", SInt)
-	for i, l := range ls {
-		x.assume(Eq(App(x.unboxFn(t, l), l.Sort, box), ts[i]))
-	}
-	return VIface{tag, box}
+	return VIface{tag, x.mkbox(t, ts)}
 }
 
 func (x *Exec) unboxIface(st *State, i VIface, t types.Type) Value {
@@ -1494,6 +1507,9 @@ func (x *Exec) execBlock(fr *Frame, b *ssa.BasicBlock, st *State) {
 				rv = VTuple{es}
 			}
 			fr.rets = append(fr.rets, retRec{st, rv})
+			if fr.top && x.discovering == 0 {
+				x.retInfos = append(x.retInfos, retInfo{st.pc, ins.Pos()})
+			}
 			return
 		case *ssa.Panic:
 			x.explicitPanic(fr, st, ins.Pos(), "panic")
@@ -1529,4 +1545,48 @@ func (x *Exec) edge(fr *Frame, from, to *ssa.BasicBlock, st *State) {
 
 func hasQuant(t Term) bool {
 	return strings.Contains(t.S, "(forall ") || strings.Contains(t.S, "(exists ") || strings.Contains(t.S, "(lambda ")
+}
+
+// mkbox: the box of a multi-word value stored in an interface is an injective constructor term
+// (deterministic, so a contract and the code build the same term for the same value).
+func (x *Exec) mkbox(t types.Type, ts []Term) Term {
+	ls := leavesOf(t)
+	fn := "mkbox." + sanitize(typeName(t))
+	if !x.declared[fn] {
+		x.declared[fn] = true
+		var sorts, vars, args []string
+		for i, l := range ls {
+			sorts = append(sorts, string(l.Sort))
+			vars = append(vars, fmt.Sprintf("(v%d %s)", i, l.Sort))
+			args = append(args, fmt.Sprintf("v%d", i))
+		}
+		x.decls = append(x.decls, fmt.Sprintf("(declare-fun %s (%s) Int)", fn, strings.Join(sorts, " ")))
+		app := "(" + fn + " " + strings.Join(args, " ") + ")"
+		for i, l := range ls {
+			ub := x.unboxFn(t, l)
+			x.decls = append(x.decls, fmt.Sprintf("(assert (forall (%s) (! (= (%s %s) v%d) :pattern (%s))))", strings.Join(vars, " "), ub, app, i, app))
+		}
+	}
+	return App(fn, SInt, ts...)
+}
+
+// flattenAnd splits nested top-level conjunctions of an SMT term.
+func flattenAnd(t Term) []Term {
+	sx := parseSexprs(t.S)
+	if len(sx) != 1 {
+		return []Term{t}
+	}
+	var out []Term
+	var walk func(n *sexpr)
+	walk = func(n *sexpr) {
+		if n.isL && len(n.list) > 0 && !n.list[0].isL && n.list[0].atom == "and" {
+			for _, c := range n.list[1:] {
+				walk(c)
+			}
+			return
+		}
+		out = append(out, Term{n.String(), SBool})
+	}
+	walk(sx[0])
+	return out
 }
